@@ -94,6 +94,9 @@ def evaluate_tree(prep: Prepared, tree, tolls=(), metrics=None):
                 out.append(cls(tensors=[n[2]], component=n[1]))
             elif k == "T":
                 out.append(Temporal(rank_variable=n[1], tile_shape=n[2]))
+            elif k == "P":
+                from accelforge.frontend.mapping import Spatial
+                out.append(Spatial(rank_variable=n[1], tile_shape=n[2], component=n[3], name=n[4]))
             elif k == "C":
                 out.append(Compute(einsum=n[1], component=prep.compute_name))
             elif k == "SEQ":
@@ -119,6 +122,8 @@ def tree_str(tree) -> str:
             out.append(f"[{n[2]}@{n[1]}]")
         elif n[0] == "T":
             out.append(f"for {n[1]}/{n[2]}")
+        elif n[0] == "P":
+            out.append(f"par-{n[3]}.{n[4]} {n[1]}/{n[2]}")
         elif n[0] == "C":
             out.append(f"compute {n[1]}")
         elif n[0] == "SEQ":
